@@ -93,7 +93,11 @@ func ZZ_C19_save_load() {
 	p := zzsym.Bytes("pass", 3)
 	p2 := zzsym.Bytes("pass2", 3)
 	same := bytes.Equal(p, p2)
+	// the key may be saved on one host and loaded on another (or under another CPU quota)
+	cpus := []int{1, 2, 4, 8}
+	zzsym.SetCPUs(cpus[zzsym.Pick("cpus-at-save", 4)])
 	zzsym.Assert(ImportPrivateKey(dir, append([]byte(nil), raw...), append([]byte(nil), p...)) == nil, "import-ok")
+	zzsym.SetCPUs(cpus[zzsym.Pick("cpus-at-load", 4)])
 	s, err := LoadFileSystemSigner(dir, append([]byte(nil), p2...))
 	if same {
 		zzsym.Reach("right-passphrase")
